@@ -87,6 +87,34 @@ fn sel_alternatives(v: &J, depth: usize) -> Vec<J> {
 }
 
 fn cases_nested_arrays(_rng: &mut Rng, sink: &mut dyn FnMut(J) -> bool) {
+    // deep trees: hidden claims below 8..63 container levels, selected by a selection that descends to them
+    {
+        let mut n = 0usize;
+        for depth in [8usize, 16, 31, 32, 33, 40, 63] {
+            for kind in 0..3 {
+                let mut v = json!({"leaf": "x", "other": 1});
+                for d in 0..depth {
+                    v = match (kind, d % 2) {
+                        (0, _) | (2, 0) => json!({ "l": v }),
+                        _ => json!([v]),
+                    };
+                }
+                let claims = json!({"iss": "i", "exp": FAR_EXP, "d": v});
+                for strategy in [Strategy::AllLevels, Strategy::TopLevel] {
+                    n += 1;
+                    let mut cfg = Cfg::simple(claims.clone(), strategy).variant(n);
+                    if n % 3 != 0 {
+                        cfg.holder = None;
+                    }
+                    let mut case = cfg.to_json();
+                    case["selection"] = J::Object(crate::pipeline::select_all(&claims));
+                    if !sink(case) {
+                        return;
+                    }
+                }
+            }
+        }
+    }
     let trees = [
         json!({"iss": "i", "exp": FAR_EXP, "seats": [["a", "b"], ["c", "d"]]}),
         json!({"iss": "i", "exp": FAR_EXP, "m": [[["x"], "y"], "z"]}),
